@@ -83,11 +83,18 @@ type C12Case struct {
 	Free        bool `json:"free,omitempty"`
 	FreeWriters int  `json:"free_writers,omitempty"`
 	FreeRounds  int  `json:"free_rounds,omitempty"`
+	// Self: a single writer with no other traffic on a store with a positive
+	// burst rate; no explicit Flush is ever issued by the harness, so each
+	// waiting write must be released by the flush it asked for itself.
+	Self    bool `json:"self,omitempty"`
+	Burst   int  `json:"burst,omitempty"`
+	SelfOps []Op `json:"self_ops,omitempty"`
 }
 
 const c12Rule = "1-3 writer tasks (Put/Remove) on a store with BurstRate(0) and a pinned tiny flush rate (verif-tagged setter) so that every write enters the waiting path, the real flusher goroutine adopted as a scheduled task at its first named point, 0-2 explicit Flush tasks; the cooperative scheduler parks tasks at the named points in flushTick (measured, decided, registered, signalled), Flush and run and follows a generated schedule (single long preemption at a drawn point, PCT-style priorities, random walk); " +
 	"oracle = bounded-liveness closure: after the generated schedule everything runs freely and three further explicit Flush() calls complete; every writer must return. The verdict is taken from goroutine states, not from elapsed time: a writer still in the channel receive of the back-pressure wait while the flusher sits idle in its select and no Flush is in progress can never be released. " +
-	"non-trivial = a flush completed between a writer's decision to wait and its registration for the notice (observed in the event order); distinct = distinct canonical JSON of the case"
+	"Single-writer part: one writer, burst rates 0..4000, 5-60 Put/Remove calls with values of 1-200 bytes on keys of few buckets, periodic interval one hour and no Flush issued by the harness: a call that waits must be released by the flush it asked for itself (same state-based verdict, taken while the call is still waiting). " +
+	"non-trivial = a flush completed between a writer's decision to wait and its registration for the notice (observed in the event order); (scheduled part), >=2 writers (free-running part), the writer did enter the wait (single-writer part); distinct = distinct canonical JSON of the case"
 
 var c12Points = []string{"tick.measured", "tick.decided", "tick.registered", "tick.signalled", "flush.stamped", "flush.committed", "put.indexed", "remove.done", "run.flushNow"}
 
@@ -233,9 +240,111 @@ type c12Stats struct {
 	foreignErr string
 }
 
+// runC12Self: "including a single writer with no other traffic". The writer's
+// calls are issued one after the other; a call that enters the back-pressure
+// wait has signalled the flusher itself, and the flush that follows completes
+// after the wait began, so it must release the call. The harness issues no
+// Flush of its own (the periodic interval is an hour). Verdict by state.
+func runC12Self(c C12Case) (st c12Stats, v *Violation) {
+	dir := newScratch("bps")
+	defer os.RemoveAll(dir)
+	s, err := store.OpenStore(bg, store.MultihashPrimary, dir+"/"+dataBase, dir+"/"+idxBase, false,
+		store.IndexBitSize(8), store.IndexFileSize(1<<20), store.PrimaryFileSize(1<<20),
+		store.GCInterval(0), store.SyncInterval(time.Hour), store.BurstRate(uint64(c.Burst)))
+	if err != nil {
+		panic(infraError{err})
+	}
+	s.VerifPinFlushRate(1e-9)
+	defer vhook.PinRate(0)
+	baseline := map[int64]bool{}
+	for _, g := range moduleGoroutines() {
+		baseline[g.id] = true
+	}
+	pc := newPointCounter()
+	pc.install()
+	defer pc.uninstall()
+	s.Start()
+	stuck := false
+	for i, op := range c.SelfOps {
+		key := c.Keys[op.Key%len(c.Keys)].Encode(store.MultihashPrimary, false)
+		done := make(chan struct{})
+		go func() {
+			defer close(done)
+			if op.K == opRemove {
+				s.Remove(key)
+			} else {
+				s.Put(key, valueFor(i, op.VLen, false))
+			}
+		}()
+		deadline := time.Now().Add(8 * time.Second)
+		quiet := 0
+	wait:
+		for {
+			select {
+			case <-done:
+				break wait
+			case <-time.After(5 * time.Millisecond):
+			}
+			waiting, flusherIdle, flushing := 0, false, false
+			for _, g := range moduleGoroutines() {
+				if baseline[g.id] {
+					continue
+				}
+				switch {
+				case strings.Contains(g.stack, ".(*Store).flushTick") && g.state == "chan receive":
+					waiting++
+				case strings.Contains(g.stack, ".(*Store).run") && g.state == "select" && !strings.Contains(g.stack, ".(*Store).Flush"):
+					flusherIdle = true
+				case strings.Contains(g.stack, ".(*Store).Flush") || strings.Contains(g.stack, ".(*Store).commit"):
+					flushing = true
+				}
+			}
+			if waiting > 0 && flusherIdle && !flushing {
+				// The flush that was asked for is over (or never ran) and the
+				// flusher is back in its select with an hour to go.
+				quiet++
+				if quiet >= 4 {
+					select {
+					case <-done:
+						break wait
+					default:
+					}
+					v = viol("writer-never-released|single-writer|not-released-by-its-own-flush", i, "call %d (%s, burst rate %d) of a single writer with no other traffic waits for the flush notice, the flusher is idle in its select (next periodic flush in an hour) and no flush is in progress: the flush the writer asked for has completed without releasing it", i, op.K, c.Burst)
+					stuck = true
+					break wait
+				}
+			} else {
+				quiet = 0
+			}
+			if time.Now().After(deadline) {
+				st.skipped = true
+				stuck = true
+				break wait
+			}
+		}
+		if stuck {
+			break
+		}
+	}
+	st.windowHit = pc.get("tick.registered") > 0 // some call did enter the back-pressure wait
+	st.preempt = pc.get("tick.registered")
+	if stuck {
+		// One explicit flush lets a stuck call go so that Close can finish.
+		s.Flush()
+		s.Flush()
+		closeQuietly(s)
+	} else {
+		s.Close()
+	}
+	return st, v
+}
+
 func runC12(c C12Case) (st c12Stats, v *Violation) {
 	if c.Free {
 		return runC12Free(c)
+	}
+	if c.Self {
+		return runC12Self(c)
 	}
 	dir := newScratch("bp")
 	defer os.RemoveAll(dir)
@@ -483,6 +592,35 @@ func TestC12(t *testing.T) {
 		}
 		ev.Record(c, c.FreeWriters >= 2, cl...)
 		ev.Class("free-running-rounds", c.FreeRounds)
+		if v != nil && ev.Report(v, c) {
+			rt.Fatalf("%v", v)
+		}
+	})
+	// Single writer, positive burst rates, no harness flushes.
+	setRapidChecks(budget(240, 400))
+	rapid.Check(t, func(rt *rapid.T) {
+		if pastDeadline() {
+			ev.Skip()
+			return
+		}
+		c := C12Case{Self: true}
+		c.Burst = []int{0, 1, 40, 200, 1000, 4000}[rapid.IntRange(0, 5).Draw(rt, "burst")]
+		c.Keys = genKeys(rt, Config{Primary: store.MultihashPrimary, Bits: 8}, 2, 8)
+		c.SelfOps = rapid.SliceOfN(rapid.Custom(func(t *rapid.T) Op {
+			op := Op{K: []string{opPut, opRemove}[weighted(t, "kind", []int{6, 1})]}
+			op.Key = rapid.IntRange(0, 7).Draw(t, "key")
+			op.VLen = []int{1, 5, 20, 60, 200}[rapid.IntRange(0, 4).Draw(t, "vlen")]
+			return op
+		}), 5, 60).Draw(rt, "ops")
+		st, v := runC12(c)
+		cl := []string{"single-writer-self-release", fmt.Sprintf("burst-%d", c.Burst)}
+		if st.windowHit {
+			cl = append(cl, "single-writer-did-wait")
+		}
+		if st.skipped {
+			cl = append(cl, "inconclusive-timeout")
+		}
+		ev.Record(c, st.windowHit, cl...)
 		if v != nil && ev.Report(v, c) {
 			rt.Fatalf("%v", v)
 		}
